@@ -506,6 +506,17 @@ func run(rp *explore.Report, tier string) {
 			if !t.filter {
 				continue
 			}
+			// a value of a wider Go type that does not fit the column's type but wraps / rounds to this row's value
+			// when it is narrowed (it matches no row before shipping)
+			switch bv := reflect.Indirect(v); {
+			case !bv.IsValid():
+			case bv.Kind() == reflect.Int8 || bv.Kind() == reflect.Int16 || bv.Kind() == reflect.Int32:
+				filters = append(filters, sqlgen.Filter{"v": bv.Int() + int64(1)<<uint(bv.Type().Bits())}, sqlgen.Filter{"v": bv.Int() - int64(1)<<uint(bv.Type().Bits())})
+			case bv.Kind() == reflect.Uint8 || bv.Kind() == reflect.Uint16 || bv.Kind() == reflect.Uint32:
+				filters = append(filters, sqlgen.Filter{"v": int64(bv.Uint()) + int64(1)<<uint(bv.Type().Bits())}, sqlgen.Filter{"v": int64(bv.Uint()) - int64(1)<<uint(bv.Type().Bits())})
+			case bv.Kind() == reflect.Float32:
+				filters = append(filters, sqlgen.Filter{"v": math.Nextafter(bv.Float(), math.Inf(1))})
+			}
 			if v.Kind() == reflect.Ptr && !v.IsNil() {
 				filters = append(filters, sqlgen.Filter{"v": v.Elem().Interface()})
 			} else if v.Kind() != reflect.Ptr && v.CanAddr() {
@@ -609,5 +620,5 @@ func describeFilter(f sqlgen.Filter) string {
 
 func init() {
 	reg.Register(&reg.Harness{Property: "C13", Name: "c13/codec", Level: "exploration", Run: run,
-		Rule: "one registered table per supported column kind (all int/uint widths, floats, bool, string, named scalars, []byte, time.Time, pointers to each, string/binary/json/implicitnull tags, self-serialising types incl. one whose NULL form is not its zero value, proto-encoded message, a wide mixed table) x boundary values; for each row every combination of source representations of its SQL values (int64 / text []byte / typed replication ints / float32 / bool as 0-1 / string vs []byte / time as time.Time or text) is decoded by BuildStruct and by the change-log row parser and compared with the original; the filter made from a row's own values must match it; every filter (incl. pointer<->value forms, nil) shipped through real protobuf bytes is rejected or matches exactly the same rows"})
+		Rule: "one registered table per supported column kind (all int/uint widths, floats, bool, string, named scalars, []byte, time.Time, pointers to each, string/binary/json/implicitnull tags, self-serialising types incl. one whose NULL form is not its zero value, proto-encoded message, a wide mixed table) x boundary values; for each row every combination of source representations of its SQL values (int64 / text []byte / typed replication ints / float32 / bool as 0-1 / string vs []byte / time as time.Time or text) is decoded by BuildStruct and by the change-log row parser and compared with the original; the filter made from a row's own values must match it; every filter (incl. pointer<->value forms, nil, values of a wider Go type that wrap or round to a row's value when narrowed) shipped through real protobuf bytes is rejected or matches exactly the same rows"})
 }
